@@ -75,6 +75,8 @@ def key(lines, names):
 def selftest(rep, trace):
     """The binding is not vacuous: drop the last edge of one page (strict must not accept, observe must see the
     enumeration skip an entry or the flags lie)."""
+    if rep.violations or rep.divergences:
+        return      # the code under test already deviates: report that, the self-test needs conforming traces
     for w in vlib.split_trace(trace):
         w = list(w)
         for i in range(len(w) - 1, 0, -1):
